@@ -51,7 +51,19 @@ func hx(s string) string {
 	if len(s) == 0 {
 		return "(bz 0%nat 0)"
 	}
-	return fmt.Sprintf("(bz %d%%nat 0x%s)", len(s), hex.EncodeToString([]byte(s)))
+	if len(s) <= 1024 {
+		return fmt.Sprintf("(bz %d%%nat 0x%s)", len(s), hex.EncodeToString([]byte(s)))
+	}
+	// long strings in chunks (a nat literal above 5000 and very large numerals upset the parser)
+	var parts []string
+	for k := 0; k < len(s); k += 1024 {
+		e := k + 1024
+		if e > len(s) {
+			e = len(s)
+		}
+		parts = append(parts, fmt.Sprintf("(%d%%nat, 0x%s)", e-k, hex.EncodeToString([]byte(s[k:e]))))
+	}
+	return "(bzs " + vlib.List(parts) + ")"
 }
 func hxTuple(ls []string) string {
 	xs := make([]string, len(ls))
